@@ -560,6 +560,7 @@ async fn history(ctx: &mut Ctx, _case: u64, rng: &mut Rng, w: &mut World, ns_sec
     let mut dial_budget = rng.range(1, if ctx.is_quick() { 6 } else { 8 });
     let mut events = 0;
     let mut downloads_queued = 0;
+    let mut neighbor_downs = 0;
     loop {
         w.step += 1;
         // enabled events
@@ -575,8 +576,21 @@ async fn history(ctx: &mut Ctx, _case: u64, rng: &mut Rng, w: &mut World, ns_sec
             AcceptEnd(usize),
             StartSyncAgain(usize),
             QueueDownload(usize),
+            NeighborDown(usize, usize),
         }
         let mut evs: Vec<(Ev, u32)> = vec![];
+        // gossip reports a neighbour down (it left the topic, or a connection broke) while sessions
+        // with it come and go: a session in flight stays in flight (added after seeded change
+        // agent-C11-10)
+        if events < max_events && neighbor_downs < 2 && w.in_flight() > 0 {
+            for x in 0..n {
+                for y in 0..n {
+                    if x != y && w.syncing[x] {
+                        evs.push((Ev::NeighborDown(x, y), 1));
+                    }
+                }
+            }
+        }
         // sharing a document, or joining more peers, calls start_sync on a document that is being
         // synced already: whatever is in flight, the slots stay as they are
         if events < max_events && (w.in_flight() > 0 || rng.chance(1, 4)) {
@@ -732,6 +746,19 @@ async fn history(ctx: &mut Ctx, _case: u64, rng: &mut Rng, w: &mut World, ns_sec
                 w.trace.push(format!("{}: n{x} queues a content download for the document", w.step));
                 if !dials.is_empty() || (0..n).any(|y| y != x && w.running(x, y) != before[y]) {
                     return Err(("content-download-changed-the-session-coordination".into(), json!({"node": x, "trace": w.trace})));
+                }
+            }
+            Ev::NeighborDown(x, y) => {
+                neighbor_downs += 1;
+                let before: Vec<Option<String>> = (0..n).map(|z| if z == x { None } else { w.running(x, z) }).collect();
+                let peer = w.nodes[y].id;
+                let _ = w.nodes[x].actor.verif_on_actor_message(ToLiveActor::NeighborDown { namespace: ns, peer }).await;
+                let dials = w.nodes[x].actor.verif_take_dials();
+                w.kinds.push("neighbor-down");
+                ctx.count("neighbor_down_reports", 1);
+                w.trace.push(format!("{}: gossip tells n{x} that n{y} is down", w.step));
+                if !dials.is_empty() || (0..n).any(|z| z != x && w.running(x, z) != before[z]) {
+                    return Err(("neighbor-down-changed-the-session-coordination".into(), json!({"node": x, "peer": y, "before": before, "after": (0..n).map(|z| if z == x { None } else { w.running(x, z) }).collect::<Vec<_>>(), "trace": w.trace})));
                 }
             }
             Ev::StartSyncAgain(x) => {
